@@ -369,6 +369,44 @@ Proof.
   exact B.
 Qed.
 
+(* COMPOSITION, no range hypotheses: every triple of linear / reciprocal units of the table *)
+Theorem composition_float_table : forall ua ub uc ka kb kc la lb lc v,
+  In ua all_units -> In ub all_units -> In uc all_units ->
+  kind_coef ua = Some (ka, la) -> kind_coef ub = Some (kb, lb) -> kind_coef uc = Some (kc, lc) ->
+  fin v -> within 400 (Rv v) ->
+  let direct := through_base fl v ua uc in
+  let via := through_base fl (through_base fl v ua ub) ub uc in
+  Rabs (Rv via - Rv direct) <= ((1 + u53') * (1 + u53') * (1 + u53') * (1 + u53') - 1) * Rabs (Rv direct).
+Proof.
+  intros ua ub uc ka kb kc la lb lc v Ia Ib Ic Ka Kb Kc Fv Wv direct via.
+  destruct (table_coef_facts ua ka la Ia Ka) as [Fa Wa].
+  destruct (table_coef_facts ub kb lb Ib Kb) as [Fb Wb].
+  destruct (table_coef_facts uc kc lc Ic Kc) as [Fc Wc].
+  set (ca := num_of_bits (l_bits la)) in *. set (cb := num_of_bits (l_bits lb)) in *.
+  set (cc := num_of_bits (l_bits lc)) in *.
+  pose proof (within_step 400 101 ka true _ _ Wv Wa) as W1.
+  destruct (step_rel ua ka la v true Ka Fv Fa (within_in_range (400 + 101) _ ltac:(lia) W1)) as (e1 & He1 & F1 & V1).
+  fold ca in V1.
+  assert (X1 : within 502 (Rv (step_fl true ua v))) by (rewrite V1; now apply (within_rounded 501)).
+  pose proof (within_step 502 101 kc false _ _ X1 Wc) as Wd.
+  pose proof (within_step 502 101 kb false _ _ X1 Wb) as W2.
+  destruct (step_rel ub kb lb _ false Kb F1 Fb (within_in_range (502 + 101) _ ltac:(lia) W2)) as (e2 & He2 & F2 & V2).
+  fold cb in V2.
+  assert (X2 : within 604 (Rv (step_fl false ub (step_fl true ua v)))) by (rewrite V2; now apply (within_rounded 603)).
+  pose proof (within_step 604 101 kb true _ _ X2 Wb) as W3.
+  destruct (step_rel ub kb lb _ true Kb F2 Fb (within_in_range (604 + 101) _ ltac:(lia) W3)) as (e3 & He3 & F3 & V3).
+  fold cb in V3.
+  assert (X3 : within 706 (Rv (step_fl true ub (step_fl false ub (step_fl true ua v)))))
+    by (rewrite V3; now apply (within_rounded 705)).
+  pose proof (within_step 706 101 kc false _ _ X3 Wc) as W4.
+  destruct (composition_float_lin_recip ua ub uc ka kb kc la lb lc v Ka Kb Kc Fv Fa Fb Fc
+              (within_in_range (400 + 101) _ ltac:(lia) W1) (within_in_range (502 + 101) _ ltac:(lia) Wd)
+              (within_in_range (502 + 101) _ ltac:(lia) W2) (within_in_range (604 + 101) _ ltac:(lia) W3)
+              (within_in_range (706 + 101) _ ltac:(lia) W4))
+    as (d1 & d2 & d3 & d4 & _ & _ & _ & _ & _ & B).
+  exact B.
+Qed.
+
 Lemma within_mono : forall a b x, (a <= b)%Z -> within a x -> within b x.
 Proof.
   intros a b x H [X1 X2]. split.
